@@ -383,6 +383,8 @@ class FIXContainer:
                 return False
 
             for t, v in other.items():
+                if str(t) in ignore_tags:
+                    continue
                 if self.is_group(t):
                     raise FIXMessageError(
                         "fix message __eq__ (dict) supports only simple tags, got group"
